@@ -435,8 +435,12 @@ def evaluate_group(ck: Check, camps: dict, g: dict, res: dict, models: list, ord
         if kind == "dc":
             seen_ok = real_loads
         gcamp.hit("class-creatable" if seen_ok else "class-refused:member-without-default-after-default")
-        if model_ok is None or seen_ok is None:
-            ck.infra_errors.append(f"field.classorder rejected {group_key(g)}: {order_model} / {order_seen}")
+        if model_ok is None:
+            ck.infra_errors.append(f"field.classorder rejected {group_key(g)}: {order_model}")
+        elif seen_ok is None:
+            # msgspec is read statically: some member of the base could not be found in the text of class B / Mid
+            ck.disagree(gcamp, inp_g, f"every member of the base is declared by its class; class S can be created: {model_ok}",
+                        f"the emitted text could not be read: {order_seen} {res['class_members']}")
         elif model_ok != seen_ok:
             ck.disagree(gcamp, inp_g, f"class S can be created: {model_ok} ({order_model})", f"{seen_ok} ({order_seen or 'exec'}) {res['class_members']}")
         if seen_ok is False:
